@@ -106,7 +106,7 @@ func (d *wrappedSlidingWindowDetector) Check(seq uint64) (func() bool, bool) {
 	// Wrap the number.
 	if diff > int64(d.maxSeq)/2 { //nolint:gosec // GG115 TODO check
 		diff -= int64(d.maxSeq + 1) //nolint:gosec // GG115 TODO check
-	} else if diff < 0 && diff <= -int64(d.maxSeq)/2 { //nolint:gosec // GG115 TODO check
+	} else if diff < -int64(d.maxSeq)/2 { //nolint:gosec // GG115 TODO check
 		diff += int64(d.maxSeq + 1) //nolint:gosec // GG115 TODO check
 	}
 
